@@ -9,14 +9,23 @@ CONFIG = {
             'cached file, a base-only file and a new name. (m) one call (Chmod, Chtimes, Rename, Remove, RemoveAll, Mkdir, MkdirAll, Create, OpenFile, Open, Stat) '
             'on a small tree the cache holds nothing / part / all of. (r) 5-25 well-formed ops through the union only (structured generator: Mkdir, MkdirAll, '
             'Create, OpenFile with write flags, Open, Remove, RemoveAll, Rename, Stat, Chmod, Chtimes, handle Read/ReadAt/Write/WriteAt/WriteString/'
-            'Seek/Truncate/Stat/Close at all offsets, alternative path spellings). (u) unconstrained: model correspondence only. Oracle after every '
+            'Seek/Truncate/Stat/Close at all offsets, alternative path spellings). (rf) refresh sweep: a write handle from Create / OpenFile (4 flag words) '
+            'kept open on /f, a first write, the two copies age in 5 ways (not at all; cached copy old and base just written; both old with the base '
+            'later / same age / earlier), one call through the union that names the file (Open, OpenFile x4, Chmod, Chtimes, Rename, Stat: what '
+            'refreshes an expired outdated copy), further writes through the FIRST handle (and the second one), reads. (rr) 8-30 steps mixing the '
+            'structured generator with kept write handles, ageing, calls naming a file with an open write handle, writes through the oldest handles. '
+            'Ageing = direct Chtimes on the two layers (no byte is touched): the item language has whole seconds and the real clock, so "the clock '
+            'moved past the cache duration" is expressed by setting the times back. (rc, ow: oracle only) real clock, duration 1 h, MemMapFs pair and '
+            'OS pair: handle kept across a refresh by Open / OpenFile / ReadFile / Chmod; WriteFile / OpenFile(O_WRONLY ...) on new, uncached and '
+            'outdated names over a base on the OS. (u) unconstrained: model correspondence only. Oracle after every '
             'step through the union (Go side, independent of the model): every regular file of the cache layer exists in the base with identical '
             'bytes (layers-diverge); ReadFile of every base file through a CacheOnReadFs over independent copies of both layers equals the base '
             'bytes (read-differs-from-base); a call that succeeds on an independent copy of the base alone does not fail through the cache '
             '(call-fails-through-cache:<op>:<error class>). distinct = hash of the item list; non-trivial = a write/truncate through a handle from the union, or a '
             'successful mutator through the union',
     'trusted_base': ['the copies used by the oracle are rebuilt through the public MemMapFs API from a dump (paths, bytes, permission bits, mtimes)'],
-    'assumptions': ['nothing writes to the base or the cache layer directly after the coherent start state'],
+    'assumptions': ['nothing writes to the base or the cache layer directly after the coherent start state, except Chtimes of a name on the two '
+                    'layers (ageing: stands for the passage of time, content and kind untouched)'],
 }
 
 def nontrivial(cid, lines, r):
